@@ -89,11 +89,7 @@ def run_replay(ctx, spec, path):
         import os, shutil, subprocess
         from . import build, props_robust as PR
         wd = os.path.join(build.CACHE, "run", "replay-cli"); shutil.rmtree(wd, ignore_errors=True); os.makedirs(os.path.join(wd, "sub.d")); os.makedirs(os.path.join(wd, "fx"))
-        files = {"a.cgt": PR.GOOD_A, "b.cgt": PR.GOOD_B, "c.noeol": PR.GOOD_NOEOL, "bad.cgt": PR.BAD_PARSE, "calcbad.cgt": PR.BAD_CALC, "my.ledger.cgt": PR.GOOD_A, "noext": PR.GOOD_B,
-                 ".hidden": PR.GOOD_B, "sub.d/x.cgt": PR.GOOD_A, "sub.d/noext": PR.GOOD_B, "empty.cgt": b"", "dots.": PR.GOOD_B, "junk.json": b"{not json"}
-        for nm in ("synthetic-transactions.json", "synthetic-awards.json"):
-            q = os.path.join(build.REPO, "tests/schwab", nm)
-            files["s.json" if "transactions" in nm else "aw.json"] = open(q, "rb").read() if os.path.exists(q) else b"{}"
+        files = PR.cli_files()
         for f, c in files.items(): open(os.path.join(wd, f), "wb").write(c)
         open(os.path.join(wd, "old.txt"), "wb").write(b"OLD")
         dp = r["scenario"].get("default_pdf_path")
